@@ -295,11 +295,13 @@ CHECKS = {
         "rule": "histories on one interpreter: a dead run (26 nesting kinds x 3 fault kinds, at script top level, inside a "
                 "function and as a module body; 7 stalled runs - unanswered order, never-settling promise, imports never "
                 "supplied, syntax error, unhandled rejections -; and runs abandoned by the host after s steps, for EVERY s of "
-                "each of 26 programs in the thorough tier / in both tiers) or a random sequence of 2-3 such runs, followed by "
-                "11 observer programs (probing every name a dead run declared, importing the dead module again from a script "
-                "and from a module, reading the host-side export table, re-declaration, completions through finally, labelled "
-                "loops, generators, async functions, modules, awaits, a host order). A history is non-trivial when the dead run"
-                " really ended the way the history says; histories are distinct by construction",
+                "each of 26 programs in the thorough tier / in both tiers) composed programs with dozens of orders (C07's "
+                "generated family, as scripts and as modules) where the host answers the first k orders and walks away, for "
+                "every k; or a random sequence of 2-3 such runs, followed by 11 observer programs (probing every name a dead "
+                "run declared, importing the dead module again from a script and from a module, reading the host-side export "
+                "table, re-declaration, completions through finally, labelled loops, generators, async functions, modules, "
+                "awaits, a host order). A history is non-trivial when the dead run really ended the way the history says; "
+                "histories are distinct by construction",
         "exhaustive": "every abandonment step of the 26 nesting programs",
         "floor": {"quick": 300, "thorough": 1000},
         "technique": "runtime monitoring: metamorphic oracle (observer on reused vs fresh interpreter) plus H4 quiescence summary after "
